@@ -8,6 +8,11 @@ import tracecheck
 from common import Machinery, Verdict, seed
 from pool import run_chunks
 
+# Binding B, source (ii): repository tests whose test-statistic calls are traced (observer in the pytest plugin)
+SUITE = {"quick": (["tests/test_teststats.py", "tests/test_infer.py"], ["-k", "not toy"]),
+         "thorough": (["tests/test_teststats.py", "tests/test_infer.py", "tests/test_calculator.py", "tests/test_validation.py",
+                       "tests/test_regression.py"], [])}
+
 INV = ["ImplEqDef", "NonNeg", "TestsRightValue", "ZeroWhenAbove", "ZeroWhenNegative", "NoZeroingTwoSided", "Emit"]
 
 
@@ -54,17 +59,39 @@ def run(prop, tier):
         v.violation(f"recorded call of {t['label']} is not explained by the specification: record {idx} ({ev}) "
                     "(wiring of the two fits / exact case value / returned parameters / fit protocol)",
                     {"trace": t["events"][max(0, idx - 1): idx + 1], "index": idx}, ["trace", ev, t["label"]])
+    import suite_traces
+    files, extra = SUITE[tier]
+    recs, summary = suite_traces.run_tests(files, "c06suite", extra=extra)
+    stests = suite_traces.split(recs)
+    st = suite_traces.teststat_traces(stests)
+    for i, t_ in enumerate(st):
+        t_["id"] = i + 1
+    if not st:
+        raise Machinery(f"no test-statistic records from the repository tests {files} ({summary})")
+    sacc, srej = tracecheck.check("TraceTestStat", st, tag="c06suite", constants={"MaxUlps": 64}, spec="TraceSpec2")
+    for tid, idx, reason in srej:
+        t_ = st[tid - 1]
+        ev = t_["events"][idx] if idx < len(t_["events"]) else {"ev": "end"}
+        v.violation(f"repository test {t_['label'].split('#')[0]}: recorded call of {t_['events'][0]['kind']} is not explained by the specification "
+                    f"at record {idx} ({ev['ev']}) (wiring of the two fits / exact case value / returned parameters / fit protocol)",
+                    {"label": t_["label"], "index": idx, "trace": t_["events"][max(0, idx - 1): idx + 1]}, ["trace", "suite", ev["ev"]])
+    skinds = {}
+    for t_ in st:
+        skinds[t_["events"][0]["kind"]] = skinds.get(t_["events"][0]["kind"], 0) + 1
     v.sample(table[0]); v.sample(json.loads(clines[0]))
     v.coverage.update(
         states=ts.distinct + closed.distinct, transitions=ts.generated + closed.generated,
         case_table_rows=len(table), realised_case_classes=len(hit), realised=hit,
-        traces_validated_against_impl=len(accepted), hook_traces_rejected=len(rejected), statistic_calls=stats,
+        traces_validated_against_impl=len(accepted) + len(sacc), hook_traces_rejected=len(rejected) + len(srej), statistic_calls=stats,
+        driver_teststat_traces=len(accepted), repository_tests_traced=len(stests), repository_teststat_traces_validated=len(sacc),
+        repository_teststat_kinds=skinds,
         evaluations=stats, distinct_nontrivial=nontriv,
         rule=("TestStat.tla enumerates the complete case table (5 statistics x consistent order facts x sign of the likelihood-ratio "
               "difference) and proves the coded branch structure equals the definition; FitClosed.tla scenarios (counts above/at/below the "
               "tested hypothesis, zero counts, zero or negative POI lower bound) are run through the real statistics and compared with the exact "
               "closed-form value; every call (closed-form and a nuisance model) is traced and TLC decides wiring and exact case semantics on the "
-              "observed floats (order lane); non-trivial = observed count > 0"),
+              "observed floats (order lane); the same trace specification also validates every test-statistic call the repository's own tests make "
+              "(64b sessions; observer in the pytest plugin brackets the H4 fit records); non-trivial = observed count > 0"),
         exhaustive=False)
     v.assumptions += ["value comparison skipped within 1e-3 of muhat = mu (branch decided by fit noise there; the trace check still decides the branch exactly on observed values)"]
     return v.finish()
